@@ -1,4 +1,5 @@
 import MLPE.Proofs.EngC04
+import MLPE.Proofs.RecScope
 
 /-!
 # C11 — recurrent subgraph: bounded re-execution; consumers see only the final result
@@ -11,8 +12,11 @@ General facts of the engine model, local to `_run_recurrent_subgraph` / `_run_no
   `RecurrentSubgraphDoesNotHaveResultError` (contained inside a one-of scope) (`C11_exhausted`);
 * a `Recurrent` result never unlocks the consumers: only the node's own condition and event are signalled
   (`C11_recurrent_result_does_not_unlock_consumers`), and `ready` refuses a `Recurrent` source (C03);
-* nodes are re-executed only through `hide_last_execution`, which the model applies to the subgraph's nodes
-  only: with C04, a node outside every recurrent subgraph runs at most once.
+* nodes are re-executed only through `hide_last_execution` (C04).
+**All programs, all schedules** (`Proofs/RecScope.lean`): in every reachable state a node whose execution was ever
+invalidated belongs to the subgraph `start → dest` of a `RecurrentSubGraph` mark
+(`C11_only_subgraph_nodes_are_invalidated`), so a node outside every recurrent subgraph is executed at most once in a
+run, whoever requests it (`C11_outside_nodes_run_at_most_once`) — "nodes outside the subgraph are not re-executed".
 -/
 namespace MLPE.Eng
 open MLPE
@@ -42,7 +46,10 @@ theorem C11_bound (c : Ctx) (s : St) (d : DagRef) (n start : Node) (g : DagRef) 
     (below : List Frame) (tk : Task) (h : s.tasks[c.t]? = some tk) (hm : tk.mustCancel = false)
     (hf : tk.frames = .recIterRet d n start g k :: below) (hst : tk.st = .runnable (.ret v)) :
     stepTask c s =
-      if hasError s g then some (retTo c s [] below .none)
+      if hasError s g then
+        some (retTo c (if v.isRecur then
+            notifyAll (notify (s.setRes n (.exc (subgraphError c.P s g))) (.node n)) ((c.P.g.desc1 n).map Key.node)
+          else s) [] below .none)
       else if !v.isRecur then some (recFinish c s [] n start below)
       else some (recIter c s [] d n start g (k + 1) v below) := by
   simp [stepTask, h, hm, hf, hst]
@@ -66,5 +73,116 @@ theorem C11_reexecution_needs_hide (P : Program) (s : St) (h : Reach P s) (n : N
   have := (coreInv_reach h n).1
   simp only [St.core] at this
   omega
+
+/-! ### All programs, all schedules: re-execution happens only inside recurrent subgraphs -/
+
+/-- **C11 (all programs, all schedules): a node is re-executed only inside a recurrent subgraph** — in every reachable
+state a node whose last execution has ever been invalidated is a node of the subgraph `start → dest` of some
+`RecurrentSubGraph` mark (or such a destination) -/
+theorem C11_only_subgraph_nodes_are_invalidated (P : Program) (s : St) (h : Reach P s) (n : Node)
+    (hn : 0 < s.hideCount n) : s.badOrd = true ∨ InRecScope P n :=
+  hidden_in_rec_scope h n hn
+
+/-- **nodes outside the subgraph are not re-executed**: a node that belongs to no recurrent subgraph is executed at most
+once in a run, whoever requests it and however the requests interleave -/
+theorem C11_outside_nodes_run_at_most_once (P : Program) (s : St) (h : Reach P s) (n : Node)
+    (hout : ¬ InRecScope P n) (hord : s.badOrd = false) : s.invCount n ≤ 1 := by
+  have h0 : s.hideCount n = 0 := by
+    cases hc : s.hideCount n with
+    | zero => rfl
+    | succ k =>
+      rcases hidden_in_rec_scope h n (by omega) with hb | hr
+      · rw [hord] at hb; cases hb
+      · exact absurd hr hout
+  have := (coreInv_reach h n).1
+  simp only [St.core] at this
+  omega
+
+/-- a recurrent pipeline `0 → 1 → 2 → 3` whose destination `2` asks once for another iteration of `1 → 2` -/
+def demoRec : Program :=
+  { g := { nodes := [0, 1, 2, 3],
+           edges := [{ u := 0, v := 1, kwarg := some "a" }, { u := 1, v := 2, kwarg := some "a" },
+                     { u := 2, v := 3, kwarg := some "a" }],
+           attr := fun n => if n = 2 then { startNode := some 1, maxIter := some 2 } else {}, input := 0, output := 3 },
+    cfg := fun _ => {},
+    body := fun n _ inv _ => if n = 2 ∧ inv = 0 then .ret (.recur (.str "d")) else .ret (.int n),
+    dflt := fun _ _ => .none,
+    inputKw := [] }
+
+def demoRecRun : List Choice :=
+  [.run 0 [] 0, .run 1 [0, 1, 2, 3] 0, .run 2 [] 0, .gate 0 0 1, .run 2 [] 0, .run 0 [] 0, .run 1 [] 0,
+   .run 3 [] 0, .gate 1 0 1, .run 3 [] 0, .run 0 [] 0, .run 1 [] 0, .run 4 [] 0, .gate 2 0 1,
+   .run 4 [] 0, .run 5 [1, 2] 0, .run 6 [] 0, .gate 1 1 1, .run 6 [] 0, .run 0 [] 0, .run 5 [] 0,
+   .run 7 [] 0, .gate 2 1 1, .run 7 [] 0, .run 0 [] 0, .run 1 [] 0, .run 5 [] 0, .run 5 [1, 2] 0,
+   .run 8 [] 0, .gate 3 0 1, .run 8 [] 0, .run 0 [] 0]
+
+def runChoicesC11 (P : Program) : St → List Choice → Option St
+  | s, [] => some s
+  | s, c :: cs => match step P s c with
+    | some (s', _) => runChoicesC11 P s' cs
+    | none => none
+
+theorem reach_of_runC11 {P : Program} : ∀ (cs : List Choice) (s s' : St), Reach P s → runChoicesC11 P s cs = some s' → Reach P s'
+  | [], s, s', h, hr => by simp [runChoicesC11] at hr; exact hr ▸ h
+  | c :: cs, s, s', h, hr => by
+    simp only [runChoicesC11] at hr
+    split at hr
+    · next s1 obs hs => exact reach_of_runC11 cs s1 s' (.step h hs) hr
+    · cases hr
+
+/-- non-vacuity: a complete run of the demo — the subgraph nodes `1`, `2` are invalidated once and executed twice, the
+outside nodes `0`, `3` once; the theorems apply to its final state -/
+example : ∃ s, runChoicesC11 demoRec init demoRecRun = some s ∧ Reach demoRec s ∧ s.badOrd = false ∧
+    s.hideCount 1 = 1 ∧ s.invCount 1 = 2 ∧ s.invCount 2 = 2 ∧ InRecScope demoRec 1 ∧
+    ¬ InRecScope demoRec 0 ∧ s.invCount 0 ≤ 1 ∧ ¬ InRecScope demoRec 3 ∧ s.invCount 3 ≤ 1 ∧
+    ∃ v, s.outcome = some (.value v) := by
+  have h : (runChoicesC11 demoRec init demoRecRun).isSome = true := by decide +kernel
+  obtain ⟨s, hs⟩ := Option.isSome_iff_exists.mp h
+  have hr := reach_of_runC11 demoRecRun init s .init hs
+  have fact : ∀ (f : St → Bool), ((runChoicesC11 demoRec init demoRecRun).map f) = some true → f s = true := by
+    intro f hf; rw [hs] at hf; simpa using hf
+  have hord : s.badOrd = false := by simpa using fact (fun s => !s.badOrd) (by decide +kernel)
+  have h1 : s.hideCount 1 = 1 := by simpa using fact (fun s => decide (s.hideCount 1 = 1)) (by decide +kernel)
+  have h2 : s.invCount 1 = 2 := by simpa using fact (fun s => decide (s.invCount 1 = 2)) (by decide +kernel)
+  have h3 : s.invCount 2 = 2 := by simpa using fact (fun s => decide (s.invCount 2 = 2)) (by decide +kernel)
+  have hout : ∀ n, n = 0 ∨ n = 3 → ¬ InRecScope demoRec n := by
+    intro n hn hsc
+    rcases hsc with ⟨dst, start, io, g, hst, hg, hmem⟩ | hst
+    · -- the only mark is (start 1, dest 2); its subgraph is [1, 2]
+      have hd : dst = 2 := by
+        simp only [demoRec] at hst
+        split at hst
+        · assumption
+        · cases hst
+      subst hd
+      have hs1 : start = 1 := by simp [demoRec] at hst; exact hst.symm
+      subst hs1
+      have : g.nodes = [1, 2] := by
+        cases io
+        · have : recGraph demoRec 1 2 false = some g := hg
+          have h' : (recGraph demoRec 1 2 false).map (·.nodes) = some [1, 2] := by decide +kernel
+          rw [this] at h'; simpa using h'
+        · have : recGraph demoRec 1 2 true = some g := hg
+          have h' : (recGraph demoRec 1 2 true).map (·.nodes) = some [1, 2] := by decide +kernel
+          rw [this] at h'; simpa using h'
+      rw [this] at hmem
+      rcases hn with rfl | rfl <;> simp at hmem
+    · rcases hn with rfl | rfl <;> simp [demoRec] at hst
+  have hin : InRecScope demoRec 1 := by
+    refine Or.inl ⟨2, 1, false, ?_⟩
+    have h' : (recGraph demoRec 1 2 false).isSome = true := by decide +kernel
+    obtain ⟨g, hg⟩ := Option.isSome_iff_exists.mp h'
+    refine ⟨g, by simp [demoRec], hg, ?_⟩
+    have h'' : (recGraph demoRec 1 2 false).map (fun g => g.nodes.contains 1) = some true := by decide +kernel
+    rw [hg] at h''; simpa using h''
+  have hval : ∃ v, s.outcome = some (.value v) := by
+    have := fact (fun s => match s.outcome with | some (.value _) => true | _ => false) (by decide +kernel)
+    cases ho : s.outcome with
+    | none => simp [ho] at this
+    | some o => cases o <;> simp [ho] at this; exact ⟨_, rfl⟩
+  exact ⟨s, hs, hr, hord, h1, h2, h3, hin, hout 0 (Or.inl rfl),
+    C11_outside_nodes_run_at_most_once demoRec s hr 0 (hout 0 (Or.inl rfl)) hord, hout 3 (Or.inr rfl),
+    C11_outside_nodes_run_at_most_once demoRec s hr 3 (hout 3 (Or.inr rfl)) hord, hval⟩
+
 
 end MLPE.Eng
